@@ -1,9 +1,19 @@
 package main
 
+import (
+	"fmt"
+	"sort"
+	"strconv"
+	"strings"
+
+	"golang.org/x/tools/go/ssa"
+)
+
 func init() { register("C10", propC10) }
 
 func propC10(c *Ctx) propInfo {
 	c.guardPolarity("tl", "liteclient")
+	c.blockIDLayout()
 	c.tlSchema()
 	c.tlPrimitives()
 	c.floor("E4b.tl-primitives", 25)
@@ -14,4 +24,116 @@ func propC10(c *Ctx) propInfo {
 	return propInfo{
 		explanation: "Static structural clauses of C10 (DESIGN.md §4 C10): lite_api.tl is parsed by an independent parser and compared with the generated bindings (request ids, decoder table, struct shapes, MarshalTL/UnmarshalTL field and mode-bit guard lists, boxed ids), TL primitive encoder/decoder constants agree with each other and with the TL spec table, and the generated integer types have the declared widths on both codec sides. Does not decide byte identity of checked-in files with generator output. The vector decoder's loop is bounded by the decoded count itself; the encoder announces the length it iterates.",
 	}
+}
+
+// blockIDLayout: tonNode.blockIdExt workchain:int shard:long seqno:int root_hash:int256
+// file_hash:int256 - 80 bytes, little-endian integers, raw hashes. The hand-written TL form of
+// ton.BlockIDExt (used inside every generated request and answer that names a block) has that
+// layout on both sides and the reader accepts exactly 80 bytes.
+func (c *Ctx) blockIDLayout() {
+	const R = "E7.bytelayout"
+	// a fixed-width access is determined by where it starts: PutUint64(p[4:13], x) and p[4:12] write
+	// the same 8 bytes, copy into p[16:49] from a 32-byte array the same 32. The rule compares start
+	// offsets and widths, and for copies demands room for the 32 bytes.
+	norm := func(lo, hi, how, what string) string {
+		if lo == "" {
+			lo = "0"
+		}
+		if how == "copy" {
+			l, err1 := strconv.Atoi(lo)
+			h, err2 := strconv.Atoi(hi)
+			room := "?"
+			if err1 == nil && err2 == nil {
+				room = map[bool]string{true: "ok", false: "short"}[h-l >= 32]
+			}
+			if hi == "" {
+				room = "ok"
+			}
+			return fmt.Sprintf("%s@%s:room-%s", what, lo, room)
+		}
+		return fmt.Sprintf("%s@%s:%s", what, lo, how)
+	}
+	role := func(what string) string {
+		for _, n := range []string{"Workchain", "Shard", "Seqno", "RootHash", "FileHash"} {
+			if strings.Contains(what, n) {
+				return n
+			}
+		}
+		return "?"
+	}
+	want := "FileHash@48:room-ok RootHash@16:room-ok Seqno@12:LE32 Shard@4:LE64 Workchain@0:LE32"
+	if f := c.mustFn(R, "ton", "BlockIDExt.MarshalTL"); f != nil {
+		var got []string
+		for _, w := range c.byteWrites(f) {
+			got = append(got, norm(w.lo, w.hi, w.how, role(w.what)))
+		}
+		sort.Strings(got)
+		c.check(strings.Join(got, " ") == want, R, "BlockIDExt.MarshalTL = wc LE32@0 | shard LE64@4 | seqno LE32@12 | root@16 | file@48", f.Pos(), strings.Join(got, " "), "BlockIDExt.MarshalTL writes "+strings.Join(got, " ")+"; tonNode.blockIdExt is "+want)
+		sz := int64(-1)
+		allInstrs(f, func(_ *ssa.BasicBlock, in ssa.Instruction) {
+			if mk, ok := in.(*ssa.MakeSlice); ok {
+				sz, _ = constInt(mk.Len)
+			}
+			// make([]byte, K) with constant K is an array allocation plus a slice in go/ssa
+			if sl, ok := in.(*ssa.Slice); ok {
+				if al, ok := sl.X.(*ssa.Alloc); ok && al.Heap {
+					if n, ok := arrayLen(al.Type()); ok && sz < 0 {
+						sz = n
+					}
+				}
+			}
+		})
+		c.check(sz == 80, R, "BlockIDExt.MarshalTL yields 80 bytes", f.Pos(), "make([]byte, 80)", fmt.Sprintf("BlockIDExt.MarshalTL allocates %d bytes; tonNode.blockIdExt is 4+8+4+32+32 = 80 bytes, a longer buffer shifts everything that follows it in a request", sz))
+	}
+	if f := c.mustFn(R, "ton", "BlockIDExt.UnmarshalTL"); f != nil {
+		var got []string
+		// integers: which field receives which read
+		allInstrs(f, func(_ *ssa.BasicBlock, in ssa.Instruction) {
+			st, ok := in.(*ssa.Store)
+			if !ok {
+				return
+			}
+			_, fn, ok := fieldOf(st.Addr)
+			if !ok {
+				return
+			}
+			derivesFrom(st.Val, func(v ssa.Value) bool {
+				cl := callOf(v)
+				if cl == nil {
+					return false
+				}
+				how := map[string]string{"encoding/binary.littleEndian.Uint32": "LE32", "encoding/binary.littleEndian.Uint64": "LE64", "encoding/binary.bigEndian.Uint32": "BE32", "encoding/binary.bigEndian.Uint64": "BE64"}[callQName(&cl.Call)]
+				if how == "" {
+					return false
+				}
+				if sl, ok := cl.Call.Args[len(cl.Call.Args)-1].(*ssa.Slice); ok {
+					got = append(got, norm(offShape(sl.Low), offShape(sl.High), how, fn))
+				}
+				return true
+			}, false)
+		})
+		allInstrs(f, func(_ *ssa.BasicBlock, in ssa.Instruction) {
+			cl, ok := in.(*ssa.Call)
+			if !ok {
+				return
+			}
+			if bi, ok := cl.Call.Value.(*ssa.Builtin); ok && bi.Name() == "copy" {
+				if sl, ok := cl.Call.Args[1].(*ssa.Slice); ok {
+					_, fn, _ := fieldOf(sliceBase(cl.Call.Args[0]))
+					got = append(got, norm(offShape(sl.Low), offShape(sl.High), "copy", fn))
+				}
+			}
+		})
+		sort.Strings(got)
+		c.check(strings.Join(got, " ") == want, R, "BlockIDExt.UnmarshalTL reads the same layout", f.Pos(), strings.Join(got, " "), "BlockIDExt.UnmarshalTL reads "+strings.Join(got, " ")+"; tonNode.blockIdExt is "+want)
+		c.boundsAtSuccess("E8.bounds", f, 0, "len(data)", lenOf(nil), 80, 80)
+	}
+}
+
+// sliceBase: the address the sliced array lives at (x[:] of a field).
+func sliceBase(v ssa.Value) ssa.Value {
+	if sl, ok := v.(*ssa.Slice); ok {
+		return sl.X
+	}
+	return v
 }
